@@ -227,6 +227,17 @@ def run(ctx):
                 rep = [("T", p.htype), ("D", d1), ("T", t2)] + ([("D", d2)] if d2 else [])
                 for tail in ([], [("L", p.header_len)], [("V", None)]):
                     hs.append(rep + tail + [("R", None), ("H", None)])
+        # a refused value must leave the pin that was accepted before it in place
+        for l1 in (p.header_len, p.header_len + 1):
+            for l2 in (-1, -5):
+                hs.append([("L", l1), ("L", l2), ("R", None), ("H", None)])
+                hs.append([("T", p.htype), ("D", good), ("L", l1), ("L", l2), ("V", None), ("R", None), ("H", None)])
+        for t1 in (p.htype, other):
+            for t2 in (-1, 100, 4):
+                hs.append([("T", t1), ("T", t2), ("R", None), ("H", None)])
+        for d1 in (good, badd):
+            for d2 in (("nonhex-g", "g" + p.hdigest.hex()[1:]), ("short1", p.hdigest.hex()[:-1]), ("empty", "")):
+                hs.append([("T", p.htype), ("D", d1), ("D", d2), ("R", None), ("H", None)])
         for l1, l2 in ((p.header_len, p.header_len + 1), (p.header_len + 1, p.header_len), (p.header_len, p.header_len)):
             hs.append([("L", l1), ("L", l2), ("R", None), ("H", None)])
             hs.append([("T", p.htype), ("L", l1), ("D", good), ("L", l2), ("R", None), ("H", None)])
@@ -252,16 +263,17 @@ def run(ctx):
                               {"kind": "hist", "base": b.hex(), "ops": [[o, v] for o, v in h]})
     ctx.sample({"history": describe(hargs[0][2][len(hargs[0][2]) // 2]), "base": hargs[0][0]})
     # (c) header substitutions under full pinning
-    sargs = [(n, b) for n, b in bs[:2 if not thorough else len(bs)]]
+    sargs = [(n, b, late) for n, b in bs[:2 if not thorough else len(bs)] for late in (0, 1)]
     for r in core.pmap(run_pinned_subst, sargs):
         ctx.states += r["mutants"]; ctx.transitions += r["mutants"]; ctx.evaluations += r["mutants"]
         if r["base_opens"] is not True:
-            ctx.violation({"check": "C07", "predicate": "fully-pinned-valid-file-refused"}, "%s does not open with its own pins" % r["name"],
-                          {"kind": "pinned", "base": bmap[r["name"]].hex()})
+            ctx.violation({"check": "C07", "predicate": "fully-pinned-valid-file-refused", "late": r["late"]}, "%s does not open with its own pins%s" % (
+                r["name"], " set between lead and header" if r["late"] else ""), {"kind": "pinned", "base": bmap[r["name"]].hex(), "late": r["late"]})
         for pos, v in r["opened"]:
-            ctx.violation({"check": "C07", "predicate": "header-mutant-opens-under-full-pinning"},
-                          "%s: header byte %d := %02x opens although type, digest and length are pinned" % (r["name"], pos, v),
-                          {"kind": "pinned", "base": bmap[r["name"]].hex(), "pos": pos, "val": v})
+            ctx.violation({"check": "C07", "predicate": "header-mutant-opens-under-full-pinning", "late": r["late"]},
+                          "%s: header byte %d := %02x opens although type, digest and length are pinned%s" % (
+                              r["name"], pos, v, " (pins set between lead and header)" if r["late"] else ""),
+                          {"kind": "pinned", "base": bmap[r["name"]].hex(), "pos": pos, "val": v, "late": r["late"]})
         for st in r["bad"]:
             ctx.violation({"check": "C07", "predicate": "crash", "part": "pinned-subst"}, "crash: %s" % (st,),
                           {"kind": "pinned", "base": bmap[r["name"]].hex()})
@@ -301,12 +313,13 @@ def describe(h):
 
 
 def run_pinned_subst(arg):
-    name, base = arg
+    name, base = arg[:2]
+    late = arg[2] if len(arg) > 2 else 0
     p = zckref.parse(base)
-    job = ["mode adv", "pin type=%d digest=%s len=%d" % (p.htype, p.hdigest.hex().encode().hex(), p.header_len),
+    job = ["mode adv", "pin type=%d digest=%s len=%d late=%d" % (p.htype, p.hdigest.hex().encode().hex(), p.header_len, late),
            "base %s" % base.hex(), "file %s" % base.hex(), "subst 0 %d" % p.header_len]
     cs = core.drv("openenum", "\n".join(job) + "\n")
-    res = {"name": name, "opened": [], "bad": [], "mutants": 0, "base_opens": None}
+    res = {"name": name, "opened": [], "bad": [], "mutants": 0, "base_opens": None, "late": late}
     for c in cs:
         if not c.done:
             res["bad"].append(c.status())
@@ -345,7 +358,7 @@ def replay(case, quiet=True):
         same = ishex and int(chr(v), 16) == int(case["good"][case["pos"]], 16)
         return {"violated": setok != ishex or leadok != same, "detail": {"setter": setok, "lead": leadok, "hex": ishex}}
     if case["kind"] == "pinned":
-        r = run_pinned_subst(("replay", base))
+        r = run_pinned_subst(("replay", base, case.get("late", 0)))
         if "pos" in case:
             return {"violated": (case["pos"], case["val"]) in r["opened"], "detail": r["opened"][:5]}
         return {"violated": r["base_opens"] is not True or bool(r["bad"]), "detail": r["bad"][:2]}
